@@ -67,7 +67,7 @@ def lattice_envs(axes, rng, count, extra=None, tie=None, fixed=None):
     """integer lattice points: sizes 6..48 (non-cubic), indices inside the box; `tie(env)` may adjust a radius so that
     the point lies exactly on the surface (strictness of <= is observable on the integer lattice)"""
     envs = []
-    for i in range(count):
+    for i in range(count * tm.N_MULT):
         env = {"__salt__": float(rng.uniform(0, 1))}
         if fixed:
             env.update(fixed(rng))
